@@ -192,6 +192,7 @@ class CountingSource(object):
         self.header_reads = 0
         self.pulls = 0        # data rows handed out (all iterators)
         self.exhausted = 0    # times an iterator ran to StopIteration
+        self.maxpulls = 0     # most data rows handed out by any single iterator
 
     def __iter__(self):
         self.iters += 1
@@ -199,17 +200,21 @@ class CountingSource(object):
 
     def _gen(self):
         first = True
+        mine = 0
         for r in self.rows:
             if first:
                 self.header_reads += 1
                 first = False
             else:
                 self.pulls += 1
+                mine += 1
+                if mine > self.maxpulls:
+                    self.maxpulls = mine
             yield r
         self.exhausted += 1
 
     def reset(self):
-        self.iters = self.header_reads = self.pulls = self.exhausted = 0
+        self.iters = self.header_reads = self.pulls = self.exhausted = self.maxpulls = 0
 
 
 class SourceFailure(Exception):
